@@ -31,6 +31,7 @@ def units(tier, seed):
         out.append({"unit": f"channel:{name}", "kind": "channel", "name": name, "cost": 2})
     for name in ("total", "average", "papr-inactive", "papr-active", "perantenna", "composite"):
         out.append({"unit": f"constraint:{name}", "kind": "constraint", "name": name, "cost": 2})
+    out.append({"unit": "bandwidth-ratio-formula", "kind": "formula", "cost": 3})
     for arch in ("bourtsoulatze2019", "tung2022q", "tung2022q2", "kurka2020", "yilmaz2023noma", "yilmaz2024wz"):
         for size in (16, 32, 48, 64):
             out.append({"unit": f"deepjscc:{arch}:{size}", "kind": "deepjscc", "arch": arch, "size": size, "cost": 4 + size / 8 + (20 if arch == "kurka2020" else 0)})
@@ -198,6 +199,39 @@ def run_unit(ctx, u):
                     ctx.case("constraint", name, cplx, shape, rep)
                     fd_check(ctx, "constraint:gradient = finite difference", f"{name}|{'complex' if cplx else 'real'}", lambda ps: c(assemble(ps)), parts, seed, signature=sig)
         ctx.sample({"unit": u["unit"], "shapes": [[3, 16], [1, 16], [2, 3, 8], [2, 2, 4, 4]]})
+        return
+
+    if kind == "formula":
+        from fractions import Fraction
+
+        from kaira.utils import calculate_num_filters_factor_image
+
+        for n in range(1, 6):
+            for ch in (1, 3):
+                for rho in (Fraction(1, 12), Fraction(1, 6), Fraction(1, 4), Fraction(1, 3), Fraction(1, 2), Fraction(1), Fraction(2)):
+                    for cplx in (False, True):
+                        exp = ch * 4**n * rho * (2 if cplx else 1)
+                        ctx.case("formula", n, ch, rho, cplx)
+                        try:
+                            got = calculate_num_filters_factor_image(n, float(rho), channels=ch, is_complex_transmission=cplx)
+                        except AssertionError:
+                            ctx.check(exp.denominator != 1 or abs(float(exp) - float(rho) * ch * 4**n * (2 if cplx else 1)) > 1e-9, "deepjscc:latent = bandwidth ratio", f"calculate_num_filters_factor_image|n={'<=2' if n <= 2 else '>=3'}|deepjscc:latent = bandwidth ratio|rejected an integer filter count", n=n, channels=ch, ratio=str(rho))
+                            continue
+                        if exp.denominator == 1:
+                            ctx.check(got == int(exp), "deepjscc:latent = bandwidth ratio", f"calculate_num_filters_factor_image|n={'<=2' if n <= 2 else '>=3'}|deepjscc:latent = bandwidth ratio|filter count does not give the requested ratio", n=n, channels=ch, ratio=str(rho), complex=cplx, got=got, expected=int(exp))
+        # functional: an encoder with n strided layers built from the formula really has that ratio
+        from kaira.models.image.bourtsoulatze2019_deepjscc import Bourtsoulatze2019DeepJSCCEncoder
+        from kaira.models.image.tung2022_deepjscc_q import Tung2022DeepJSCCQEncoder
+
+        x = torch.rand(2, 3, 32, 32)
+        for rho in (1 / 6, 1 / 12, 1 / 3):
+            c2 = calculate_num_filters_factor_image(2, rho)
+            z = Bourtsoulatze2019DeepJSCCEncoder(c2)(x)
+            ctx.check(abs(z.numel() / x.numel() - rho) < 1e-9, "deepjscc:latent = bandwidth ratio", "bourtsoulatze2019|formula-built encoder|deepjscc:latent = bandwidth ratio|differs", ratio=rho, latent=list(z.shape))
+            c4 = calculate_num_filters_factor_image(4, rho)
+            z = Tung2022DeepJSCCQEncoder(N=16, M=c4)(x)
+            ctx.check(abs(z.numel() / x.numel() - rho) < 1e-9, "deepjscc:latent = bandwidth ratio", "tung2022q|formula-built encoder|deepjscc:latent = bandwidth ratio|differs", ratio=rho, latent=list(z.shape), M=c4)
+        ctx.sample({"unit": "bandwidth-ratio-formula", "strided_layers": [1, 2, 3, 4, 5], "ratios": ["1/12", "1/6", "1/4", "1/3", "1/2", "1", "2"]})
         return
 
     # ---------------------------------------------------------------- DeepJSCC architectures
